@@ -235,7 +235,8 @@ def run(ctx: Ctx):
         if isinstance(n, ast.Assert) and isinstance(n.test, ast.Compare) and len(n.test.ops) == 1 \
                 and isinstance(n.test.ops[0], ast.Lt) and isinstance(n.test.comparators[0], ast.Name):
             ud = rdi.derives(n.test.comparators[0])
-            if any("vocab_size" in u(e) for e in ud.exprs) and retn and u(n.test.left) in u(retn[-1].value):
+            if any("vocab_size" in u(e) for e in ud.exprs) and any(
+                    isinstance(x, ast.Name) and x.id == u(n.test.left) for r_ in retn if r_.value is not None for x in ast.walk(r_.value)):
                 okas = True
     col.ob("G23", "S3", f"{W('_infer_max_direct_descendants')}::asserts-S<U", okas,
            f"_infer_max_direct_descendants asserts {asserts}; the bound S < U justifies the kernel's window", rel, infer.line)
